@@ -219,3 +219,72 @@ func severalOrphans(r *ev.Run) {
 		}
 	}
 }
+
+// retainedKeyObject: a caller keeps what Signers() gave it — the signer of a hardware certificate and the public-key
+// object that signer carries — while the certificate lapses and is purged. A sign request naming the retained object gets no signature
+// afterwards.
+func retainedKeyObject(r *ev.Run) {
+	for vi, noUp := range []bool{false, true} {
+		c := r.Case("retained-key-object", vi)
+		if c == nil {
+			continue
+		}
+		r.Eval(1)
+		if _, hung := r.GuardWithin(c, "retained signer of a lapsing hardware certificate", noUp, ev.CaseBudget()+10*time.Second, func() {
+			ag := wire.New()
+			defer ag.Close()
+			sock, err := ag.Listen()
+			if err != nil {
+				r.Inconclusive(err.Error())
+				return
+			}
+			k := gen.Pool()[vi]
+			ag.Keyring.Add(agent.AddedKey{PrivateKey: k.Priv, Comment: "k"})
+			s, err := shimagent.New(shimagent.Option{Address: sock, NoUpstream: noUp})
+			if err != nil {
+				r.Violation(c, "shim-construction-fails-without-fault", err.Error(), noUp)
+				return
+			}
+			defer s.Close()
+			start := time.Now()
+			lapse := start.Add(2 * time.Second)
+			crt := gen.MakeCert(gen.CertSpec{Key: k, KeyID: gen.YSSHCAKeyID(gen.KeyIDSpec{HW: true, Touch: 3, TransID: "retained00", Prins: []string{"u"}}), ValidAfter: uint64(start.Unix()) - 600, ValidBefore: uint64(lapse.Unix()), Principals: []string{"u"}})
+			if err := s.AddHardCert(crt, "lapsing"); err != nil {
+				r.Violation(c, "hardware-cert-with-held-key-refused", err.Error(), noUp)
+				return
+			}
+			sg, err := s.Signers()
+			if err != nil {
+				r.Violation(c, "signers-fails-without-fault", err.Error(), noUp)
+				return
+			}
+			var kept ssh.Signer
+			for _, x := range sg {
+				if string(x.PublicKey().Marshal()) == string(crt.Marshal()) {
+					kept = x
+				}
+			}
+			if kept == nil {
+				if time.Now().Before(lapse.Add(-300 * time.Millisecond)) {
+					r.Violation(c, "valid-hardware-cert-not-listed", "not among the signers right after it was accepted", noUp)
+				}
+				return
+			}
+			if d := time.Until(lapse.Add(1300 * time.Millisecond)); d > 0 {
+				time.Sleep(d)
+			}
+			s.List() // runs the purge
+			if sig, err := s.Sign(kept.PublicKey(), []byte("data")); err == nil && sig != nil {
+				r.Violation(c, "sign-with-out-of-window-cert-succeeds:retained-key-object", "a sign request naming the public-key object that Signers() had handed out for a hardware certificate returned a signature after the certificate had lapsed and been purged", noUp)
+				return
+			}
+			// (the retained signer itself asks the shim for a signature with the plain key, which the underlying agent still
+			// holds: that is not a request naming the purged certificate, and is not judged)
+			r.Count("retained signers / key objects of lapsed hardware certificates refused", 1)
+			r.Nontrivial(fmt.Sprintf("retained-key-object:%v", noUp))
+		}); hung {
+			r.Unfinished("retained signer of a lapsing hardware certificate")
+			return
+		}
+	}
+}
